@@ -97,7 +97,7 @@ class Gen:
     expression modifies, with their final value; feat: feature tags."""
 
     def __init__(self, ch, const_only=False, allow_side=True, allow_ptr=True, allow_comma=True, types=None,
-                 excl=None):
+                 excl=None, pp=False):
         self.ch = ch
         self.vars = []
         self.mods = []       # (name, type, init, final)
@@ -111,6 +111,10 @@ class Gen:
         self.types = types or TYPES
         self.excl = excl if excl is not None else {}
         self.nt = False
+        self.IT = LONG if pp else INT
+        self.pp = pp           # preprocessor arithmetic: intmax_t/uintmax_t only, no casts, no objects
+        if pp:
+            self.types = [LONG, ULONG]; self.const_only = True; self.allow_side = False; self.allow_ptr = False; self.allow_comma = False
 
     # ---- leaves
     def value(self, t):
@@ -124,8 +128,28 @@ class Gen:
         self.vars.append((n, t, v))
         return E(n, t, v, lit(t, v))
 
+    def pplit(self, t, v):
+        if t is ULONG:
+            return self.ch.choice(['%du', '%dU', '0x%xu', '%dul', '%dULL']) % v
+        if v < 0:
+            return '(-%d)' % -v if v != LONG.min() else '(-9223372036854775807-1)'
+        return self.ch.choice(['%d', '%d', '0x%x', '%dl', '0%o', '%dLL']) % v
+
     def leaf(self):
         ch = self.ch
+        if self.pp:
+            k = ch.int(0, 9)
+            if k < 7:
+                t = ch.choice(self.types)
+                v = self.value(t)
+                if abs(v) >= 0x7fffffff:
+                    self.nt = True
+                return E(self.pplit(t, v), t, v)
+            if k == 7:
+                c = ch.choice("aZ09 ~")
+                return E("'%s'" % c, LONG, ord(c))
+            v = ch.choice([0, 1, 2, 3, 5, 7, 8, 31, 32, 63, 64, 100, 255, 65535, 2147483647, 4294967295, 4294967296])
+            return E(str(v), LONG, v)
         k = ch.int(0, 11)
         if k <= 6 or (k >= 10 and self.const_only and False):
             t = ch.choice(self.types)
@@ -214,6 +238,9 @@ class Gen:
         return E(fmt.format(*[s.txt for s in subs]), t, v, fmt.format(*[s.ctxt for s in subs]))
 
     def cast_to(self, e, t):
+        if self.pp:
+            # no casts in #if: adding 0u converts to uintmax_t
+            return self.mk('({0} + 0u)', ULONG, conv(e.v, ULONG), e)
         return self.mk('((%s){0})' % t.name, t, conv(e.v, t), e)
 
     # ---- operators
@@ -226,6 +253,8 @@ class Gen:
             kinds.append('comma')
         if self.allow_side:
             kinds += ['assign', 'opassign', 'opassign', 'incdec']
+        if self.pp:
+            kinds = [x for x in kinds if x != 'cast']
         k = ch.choice(kinds)
         return getattr(self, 'k_' + k)(d)
 
@@ -277,7 +306,7 @@ class Gen:
         if op == '<<':
             if pt.signed and (x < 0 or (x << cnt) > pt.max()):
                 ut = UNS[pt]
-                a = self.cast_to(a, ut); pt = ut; x = a.v
+                a = self.cast_to(a, ut); pt = a.t; x = a.v
             res = conv(x << cnt, pt)
         else:
             res = x >> cnt      # arithmetic shift of negative values: implementation-defined, pinned to gcc/clang
@@ -292,7 +321,7 @@ class Gen:
         pt = promote(a.t); x = conv(a.v, pt)
         self.feat.add('u%s:%s' % (op, a.t.short))
         if op == '!':
-            return self.mk('(!{0})', INT, int(a.v == 0), a)
+            return self.mk('(!{0})', self.IT, int(a.v == 0), a)
         if a.t.rank < 3 or not a.t.signed:
             self.nt = True
         if op == '+':
@@ -320,7 +349,7 @@ class Gen:
         if a.t is not b.t:
             self.nt = True
         self.feat.add('%s:%s,%s' % (op, a.t.short, b.t.short))
-        return self.mk('({0} %s {1})' % op, INT, int(res), a, b)
+        return self.mk('({0} %s {1})' % op, self.IT, int(res), a, b)
 
     def k_log(self, d):
         ch = self.ch
@@ -333,7 +362,7 @@ class Gen:
         self.allow_side = save
         res = (a.v != 0 and b.v != 0) if op == '&&' else (a.v != 0 or b.v != 0)
         self.feat.add('%s:%s,%s' % (op, a.t.short, b.t.short))
-        return self.mk('({0} %s {1})' % op, INT, int(res), a, b)
+        return self.mk('({0} %s {1})' % op, self.IT, int(res), a, b)
 
     def k_cond(self, d):
         c = self.expr(d - 1)
